@@ -385,14 +385,20 @@ func c08(r *hx.Run) {
 		alter("sd-type-added", func(t map[string]interface{}) { sd(t)["type"] = "x" })
 		alter("sd-origin-changed", func(t map[string]interface{}) { sd(t)["anchorOrigin"] = "evil" })
 		alter("sd-extra-member", func(t map[string]interface{}) { sd(t)["extra"] = 1.0 })
-		alter("sd-recovery-changed", func(t map[string]interface{}) { sd(t)["recoveryCommitment"] = fx.Commit(fx.NewKey(lc.kt, "c08/evil"), lc.code) })
+		alter("sd-recovery-changed", func(t map[string]interface{}) {
+			sd(t)["recoveryCommitment"] = fx.Commit(fx.NewKey(lc.kt, "c08/evil"), lc.code)
+		})
 		alter("sd-deltahash-changed", func(t map[string]interface{}) { sd(t)["deltaHash"] = fx.Multihash(lc.code, []byte("x")) })
 		alter("sd-deltahash-removed", func(t map[string]interface{}) { delete(sd(t), "deltaHash") })
 		alter("sd-removed", func(t map[string]interface{}) { delete(t, "suffixData") })
 		alter("delta-removed", func(t map[string]interface{}) { delete(t, "delta") })
-		alter("delta-commitment-changed", func(t map[string]interface{}) { dl(t)["updateCommitment"] = fx.Commit(fx.NewKey(lc.kt, "c08/evil"), lc.code) })
+		alter("delta-commitment-changed", func(t map[string]interface{}) {
+			dl(t)["updateCommitment"] = fx.Commit(fx.NewKey(lc.kt, "c08/evil"), lc.code)
+		})
 		alter("delta-commitment-removed", func(t map[string]interface{}) { delete(dl(t), "updateCommitment") })
-		alter("delta-patch-added", func(t map[string]interface{}) { dl(t)["patches"] = append(dl(t)["patches"].([]interface{}), fx.AddServicePatch("evil", "https://evil.example")) })
+		alter("delta-patch-added", func(t map[string]interface{}) {
+			dl(t)["patches"] = append(dl(t)["patches"].([]interface{}), fx.AddServicePatch("evil", "https://evil.example"))
+		})
 		alter("delta-patch-removed", func(t map[string]interface{}) { dl(t)["patches"] = dl(t)["patches"].([]interface{})[:1] })
 		alter("delta-patches-emptied", func(t map[string]interface{}) { dl(t)["patches"] = []interface{}{} })
 		alter("delta-extra-member", func(t map[string]interface{}) { dl(t)["extra"] = "x" })
